@@ -216,7 +216,7 @@ class Extractor:
         body = self.v8_push_unchecked(body, fname)
         contract, entry = [], []
         loop_head, loop_start, loop_end = {}, {}, {}
-        befores, afters, replaces = [], [], []
+        befores, afters, replaces, tails = [], [], [], []
         for kind, arg, txt in sub:
             if kind == "|":
                 contract.append(txt)
@@ -228,6 +228,8 @@ class Extractor:
                 loop_start.setdefault(int(arg), []).append(txt)
             elif kind == "loopend":
                 loop_end.setdefault(int(arg), []).append(txt)
+            elif kind == "tail":
+                tails.append(txt)
             elif kind == "before":
                 befores.append((arg, txt))
             elif kind == "after":
@@ -261,6 +263,13 @@ class Extractor:
             if snip_count(body, snip) != 1:
                 raise vf.Undecided("lost anchor: snippet `%s` occurs %d times in %s (need exactly 1)" % (snip, snip_count(body, snip), fname))
             body = snip_re(snip).sub(lambda m_: m_.group(0) + "\n" + txt, body, count=1)
+        if tails:
+            blines = body.rstrip().split("\n")
+            k = len(blines) - 1
+            while k >= 0 and not blines[k].strip():
+                k -= 1
+            blines[k:k] = tails
+            body = "\n".join(blines) + "\n"
         out = "%s %s\n%s\n{\n%s\n%s}\n" % (qual, sig, "\n".join("    " + c for c in contract), "\n".join(entry), body)
         if d.get("ob"):
             self.obs.append({"name": d.get("rename", fname), "id": d["ob"], "kind": d.get("kind", "proof"), "fn": d.get("fnlabel", fname), "desc": d.get("desc", ""),
@@ -320,6 +329,11 @@ class Extractor:
                 i += 1
                 while i < n and not lines[i].strip().startswith("//@endfn"):
                     s2 = lines[i].strip()
+                    m3 = re.match(r"//@tail\|\s?(.*)$", s2)
+                    if m3:
+                        sub.append(("tail", None, m3.group(1)))
+                        i += 1
+                        continue
                     m2 = re.match(r"//@(\||entry\||loop\s+(\d+)\||loopstart\s+(\d+)\||loopend\s+(\d+)\||before\s+`([^`]*)`\||after\s+`([^`]*)`\||replace\s+`([^`]*)`\s*=>\s*`([^`]*)`)\s?(.*)$", s2)
                     if m2:
                         tag = m2.group(1)
